@@ -128,6 +128,7 @@ class Gen7:
         self.state = {}       # name -> (state, fail_after)
         self.deadlines = []   # expected deadlines of held requests
         self.armed = []
+        self.only_async = False   # a command parked at pause:gate-set / drain:marked must not run on the scheduler's goroutine
 
     def cid(self):
         self.ncmd += 1
@@ -179,7 +180,7 @@ class Gen7:
         for _ in range(n):
             x = rnd.random()
             nm = rnd.choice(names)
-            async_ = rnd.random() < (0.4 if self.exact else 0.7)
+            async_ = self.only_async or rnd.random() < (0.4 if self.exact else 0.7)
             if x < 0.30:
                 for _ in range(rnd.choice([1, 1, 2, 3, 4])):
                     self.request(nm if rnd.random() < 0.8 else rnd.choice(names))
@@ -201,6 +202,8 @@ class Gen7:
                 p = rnd.choice(YIELDS + (["drain:marked"] if not self.exact else []))
                 self.steps.append(st_arm(p, rnd.choice([1, 1, 2])))
                 self.armed.append(p)
+                if p in ("pause:gate-set", "drain:marked"):
+                    self.only_async = True
             elif self.armed:
                 p = self.armed.pop(rnd.randrange(len(self.armed)))
                 self.steps.append(st_rel(p))
